@@ -47,12 +47,30 @@ CellOK(ctx, d, path, k) ==
          [] ctx = "arg"     -> k <= n + 1 /\ ~(Kind(core) = "sptr" /\ k # 1)
          [] ctx = "argmiss" -> k <= n /\ Kind(core) \notin {"sptr", "slice", "view"}
 
-Cells == {[kind |-> b[1], d |-> b[2], path |-> p, k |-> k, ctx |-> ctx] :
-              b \in Bases, p \in UNION {PathsFrom(x[2], MaxSteps) : x \in Bases}, k \in 0..3, ctx \in {"assign", "read", "arg", "argmiss"}}
+YContexts == {"block", "loop", "then", "else", "elif_then", "elif_else", "elif2", "label"}
+XContexts == {"paren", "elem", "member", "nested", "ret", "cond"}
+Contexts == {<<"direct", "top">>} \cup {<<"direct", y>> : y \in YContexts} \cup {<<x, "top">> : x \in XContexts}
+                \cup {<<"elem", "elif_then">>, <<"member", "elif2">>, <<"nested", "elif_else">>}
+
+Cells == {[kind |-> b[1], d |-> b[2], path |-> p, k |-> k, ctx |-> ctx, x |-> xy[1], y |-> xy[2]] :
+              b \in Bases, p \in UNION {PathsFrom(x[2], MaxSteps) : x \in Bases}, k \in 0..3,
+              ctx \in {"assign", "read", "arg", "argmiss"}, xy \in Contexts}
+
+\* contexts are crossed with a reduced set of cells: statement contexts with paths of at most two steps,
+\* expression contexts with address-of arguments of a declarable pointer type (not the address of a view)
+ContextOK(cl) ==
+    LET F == Final(cl.d, cl.path)
+        core == StripPtr(F)
+        et == ExpectType(F, cl.k)
+    IN /\ (cl.y # "top" => Len(cl.path) <= 2)
+       /\ (cl.x # "direct" => /\ cl.ctx = "arg" /\ cl.k >= 1 /\ Len(cl.path) <= 2
+                               /\ Kind(et) = "ptr" /\ Declarable(et)
+                               /\ Kind(core) \notin {"view", "slice", "sptr"})
 
 Init == /\ c \in Cells
         /\ c.path \in PathsFrom(c.d, MaxSteps)
         /\ CellOK(c.ctx, c.d, c.path, c.k)
+        /\ ContextOK(c)
 Next == UNCHANGED c
 
 \* the algorithm as it is meant (without the three unification quirks) implements the rule ...
